@@ -23,6 +23,8 @@ def scope_axioms(n):
     from . import vals
     out = []
     for name, srt in vals._opaque.items():
+        if srt.kind() != z3.Z3_UNINTERPRETED_SORT:
+            continue
         k = 2 if name == "Graph" else n
         ds = [z3.Const(f"dom_{name}_{i}", srt) for i in range(k)]
         x = z3.Const(f"x_{name}", srt)
